@@ -19,10 +19,11 @@ var kinds = []common.Kind{common.KU32, common.KString}
 
 // Check_Lockset: every entry point a goroutine of the exporting process can
 // run, under the access monitor, with a role per goroutine:
-//   app       - the application's single goroutine calling SendSet
-//   refresher - the UDP template refresh tick: sendRefreshedTemplates
-//   checker   - the TCP connection check tick: checkConnToCollector (+ close)
-//   closer    - CloseConnToCollector from any goroutine, possibly repeated
+//
+//	app       - the application's single goroutine calling SendSet
+//	refresher - the UDP template refresh tick: sendRefreshedTemplates
+//	checker   - the TCP connection check tick: checkConnToCollector (+ close)
+//	closer    - CloseConnToCollector from any goroutine, possibly repeated
 func Check_Lockset() {
 	conn := &common.FakeConn{}
 	ep := exporter.VerifNewExportingProcess(conn, sx.U32("domain"))
